@@ -118,6 +118,18 @@ def run(ctx):
                 dl.append(decgen.case(s["method"], s["data"][:len(s["data"]) // 2], "-", 2 ** 32 - 1, "65536*4,1*50", -1, 0))
         for m_ in ("-lzs-", "-lz5-", "-lh5-", "-lh1-"):
             dl.append(decgen.case(m_, b"\x00" * 3000, "-", 10 ** 7, "1048576*3", -1, 0))
+        # the input ends inside a run of one bits (unary length extensions, escape codes) or of zero bits: short
+        # prefixes of real streams and of hand-made table headers, followed by 0xFF / 0x00 / 0xAA bytes, then nothing
+        heads = [b"", b"\x00\x01", b"\x00\x0f", b"\x00\x10\x20", b"\x7f\xff", b"\x00\x02\x49", b"\xff"]
+        for m_ in sorted(decgen.ALL_METHODS):
+            pre = [h for h in heads]
+            for s_ in sd:
+                if s_["method"] == m_ and len(s_["data"]) > 40:
+                    pre += [s_["data"][:k] for k in (1, 2, 3, 5, 8, 13, 21, 34)]
+                    break
+            for h in pre[:(9 if ctx.quick else 40)]:
+                for fill, n in ((0xff, 4), (0xff, 40), (0x00, 6), (0xaa, 9)):
+                    dl.append(decgen.case(m_, h + bytes([fill]) * n, "-", 5000, "4096*2,1*3", -1, 0))
         do = common.run_lines_parallel([dexe], dl, timeout=120, single_timeout=30, max_hangs=2)
         for ln, c in zip(dl, do):
             dist["decoder-budget"] += 1
@@ -136,7 +148,7 @@ def run(ctx):
                        "(watchdog), requests <= len + 16*(members+2), peak heap <= 8 MiB + 2*len, nothing live after free, and the "
                        "line (incl. request counts for callback streams) equals the model's; decoders: -pm1- with empty input for all "
                        "32 start headers, a pm2 stream that needs no input, halves of real members with a 4 GiB declared length, "
-                       "constant input: every decode returns with at most the declared length. non-trivial = case yielding a member",
+                       "constant input, and for every method short prefixes of real streams / hand-made table headers followed by runs of 0xFF, 0x00, 0xAA bytes and then the end of input (the input ends inside unary runs and escape codes): every decode returns with at most the declared length. non-trivial = case yielding a member",
                "distribution": dict(dist), "samples": [lines[0][:120], lines[-1][:160], dl[0][:80]]}
         return {"violations": viol[:10], "mismatches": mism[:10], "coverage": cov,
                 "search_note": "direct oracles: watchdog, request and heap accounting of the driver"}
